@@ -258,4 +258,28 @@ def mxpSimFew (w : Nat) (c0 : Int) (ps : List (Int × Int)) (m : Int) : Option I
     let bs := qs.map (·.2)
     some (M.back (fewLoop M tab bs (maxBits bs) (tab.getD 0 0)))
 
+/-! ### bn_mxp_sim_lot (XP_WIDTH = max(8, RLC_WIDTH) = 8 in the configurations built) -/
+
+/-- bn_mod with three arguments (bn_mod_basic: floored remainder; a zero modulus is refused) -/
+def modB (x m : Int) : Option Int := if m = 0 then none else some (Int.fmod x m)
+
+/-- the blocking loop: while at least 8 pairs remain, 8 of them go through bn_mxp_sim_few and are multiplied into c -/
+def lotBlocks (w : Nat) (m : Int) : Nat → List (Int × Int) → Int → Option (Int × List (Int × Int))
+  | 0, ps, c => some (c, ps)
+  | f + 1, ps, c =>
+    if 8 ≤ ps.length then
+      (mxpSimFew w 0 (ps.take 8) m).bind fun t => (modB (c * t) m).bind fun c' => lotBlocks w m f (ps.drop 8) c'
+    else some (c, ps)
+
+/-- bn_mxp_sim_lot(c, a, b, m, n): m = 1 → 0; c = 1; blocks of 8; then the remaining pairs: none → nothing, exactly one → bn_mxp (which
+    has the b = 0 exit and inverts for a negative exponent), more → bn_mxp_sim_few; every product reduced by bn_mod_basic -/
+def mxpSimLot (w : Nat) (ps : List (Int × Int)) (m : Int) : Option Int :=
+  if m = 1 then some 0
+  else
+    (lotBlocks w m ps.length ps 1).bind fun r =>
+      match r.2 with
+      | [] => some r.1
+      | [p] => (mxpSlide w p.1 p.2 m).bind fun t => modB (r.1 * t) m
+      | rest => (mxpSimFew w 0 rest m).bind fun t => modB (r.1 * t) m
+
 end Relic.Model.NtMxp
